@@ -4,6 +4,7 @@ import (
 	"fmt"
 	"go/ast"
 	"go/token"
+	"go/types"
 	"reflect"
 	"sort"
 	"strconv"
@@ -369,4 +370,153 @@ func (s *Struct) FieldByTag(want, tagKey string) *Field {
 		}
 	}
 	return nil
+}
+
+// MultiWorld is one abstract run over several schema files.
+type MultiWorld struct {
+	World
+	Specs []*FileSpec
+	Loads []string
+}
+
+// RunMulti generates the files `args` (in that order) in one generator run; other files are only reachable through $ref.
+func RunMulti(p *core.Program, cfg gen.Config, files []*FileSpec, args []string, budget int) (worlds []*MultiWorld, complete bool) {
+	type out struct {
+		specs  []*FileSpec
+		files  map[string]absint.Str
+		genErr string
+		loads  []string
+	}
+	runs, complete := absint.Explore(p, budget, func(m *absint.Machine) {
+		gen.InstallStubs(m)
+		m.FactPrefixDefault = map[string]int{}
+		for _, r := range ReservedIdents {
+			m.FactPrefixDefault["=="+r] = 0
+		}
+	}, func(m *absint.Machine) any {
+		g := gen.New(m)
+		o := &out{}
+		for _, f := range files {
+			o.specs = append(o.specs, &FileSpec{Name: f.Name, ID: f.ID, Root: f.Root.Clone()})
+		}
+		schemas := BuildFiles(g, o.specs)
+		g.StubLoader(schemas)
+		G := g.NewGenerator(cfg)
+		for _, a := range args {
+			errv := g.AddFile(G, a, schemas[a])
+			if !absint.IsNilValue(errv) {
+				o.genErr = "error"
+				if iv, ok := errv.(absint.Iface); ok {
+					if ev, ok := iv.V.(absint.ErrVal); ok {
+						o.genErr = ev.Msg.Debug()
+					}
+				}
+				return o
+			}
+		}
+		o.files = g.Sources(G)
+		o.loads = g.Loads
+		return o
+	})
+	for _, r := range runs {
+		w := &MultiWorld{}
+		w.Cfg, w.Script, w.Forks, w.Err, w.Events, w.Assume, w.Ext, w.Steps = cfg, r.Script, r.Forks, r.Err, r.Events, r.Assumptions, r.Externals, r.Steps
+		w.Facts = map[string]int{}
+		for i, f := range r.Forks {
+			if i < len(r.Script) {
+				w.Facts[f.Key] = r.Script[i]
+			}
+		}
+		if o, ok := r.Out.(*out); ok && o != nil {
+			w.Specs, w.GenErr, w.Loads = o.specs, o.genErr, o.loads
+			w.Files = map[string]*skel.File{}
+			w.Models = map[string]*FileModel{}
+			alias := aliasFromFacts(w.Facts)
+			fset := token.NewFileSet()
+			for name, s := range o.files {
+				f := skel.ParseInto(fset, name, skel.RenderAlias(s, alias))
+				w.Files[name] = f
+				if f.Err == nil {
+					w.Models[name] = Model(f)
+				}
+			}
+			if len(o.specs) > 0 {
+				w.Spec = o.specs[0].Root
+			}
+		}
+		worlds = append(worlds, w)
+	}
+	return worlds, complete
+}
+
+// TypeCheckAll type-checks all emitted files of a run together: the files of one package as one package, packages that
+// import other generated packages after those and against them (the emitted packages must build together).
+func (w *MultiWorld) TypeCheckAll(repo string, pkgOfFile map[string]string) []Issue {
+	var out []Issue
+	done := map[string]*types.Package{}
+	groups := map[string][]string{} // package path -> file names
+	for n, f := range w.Files {
+		if f.Err == nil {
+			groups[pkgOfFile[n]] = append(groups[pkgOfFile[n]], n)
+		}
+	}
+	var paths []string
+	for p := range groups {
+		paths = append(paths, p)
+	}
+	sort.Strings(paths)
+	pending := map[string]bool{}
+	for _, p := range paths {
+		pending[p] = true
+	}
+	for round := 0; round < 6 && len(pending) > 0; round++ {
+		for _, p := range paths {
+			if !pending[p] {
+				continue
+			}
+			names := groups[p]
+			sort.Strings(names)
+			ready := true
+			var fs []*skel.File
+			for _, n := range names {
+				f := w.Files[n]
+				fs = append(fs, f)
+				for _, im := range f.AST.Imports {
+					ip := strings.Trim(im.Path.Value, "\"")
+					if _, gen := groups[ip]; gen && ip != p && done[ip] == nil {
+						ready = false
+					}
+				}
+			}
+			if !ready && round < 5 {
+				continue
+			}
+			delete(pending, p)
+			errs, pkg, _, err := skel.TypeCheckFiles(repo, fs, done)
+			if err != nil {
+				out = append(out, Issue{Rule: "A-UNDECIDED", Construct: "type-check environment", Msg: err.Error()})
+				continue
+			}
+			if pkg != nil {
+				done[p] = pkg
+			}
+			seen := map[string]bool{}
+			for _, e := range errs {
+				if strings.HasPrefix(strings.TrimSpace(e.Msg), "other declaration of") {
+					continue
+				}
+				k := e.Msg
+				for _, f := range fs {
+					k = skel.NormalizeTypeError(k, f.R)
+				}
+				k = normIdents(k, &w.World)
+				if seen[k] {
+					continue
+				}
+				seen[k] = true
+				out = append(out, Issue{Rule: "A-TYP", Construct: k, Msg: fmt.Sprintf("package %s (files %v) does not type-check when all emitted packages are taken together: %s (line %d: %s)", p, names, e.Msg, e.Line, e.Text)})
+			}
+		}
+	}
+	return out
 }
